@@ -374,8 +374,19 @@ class StmtMixin:
         line = s.lineno
         if bind_next:
             bind_next()
-        if counter is not None and length is not None:
-            pass
+        # python lists that the loop appends to become symbolic sequences (promote={name: (sort, wrap)})
+        for nm, (sortname, wrapname) in spec.get("promote", {}).items():
+            cur = st.locals.get(nm)
+            if isinstance(cur, list):
+                sq = Seq.new(sortname, nm, len(cur))
+                arr = sq.arr
+                for i_, x in enumerate(cur):
+                    arr = z3.Store(arr, i_, x.term if hasattr(x, "term") else z3ify(x))
+                sq.arr = arr
+                sq.wrap = self.specns.get(wrapname) if wrapname else None
+                st.locals[nm] = sq
+        for gs in spec.get("ghost_init", []):
+            c.exec_ghost(self, gs, st, fr)
         # 1. invariant holds on entry
         for j, inv in enumerate(spec["invariant"]):
             g = c.eval_spec(self, inv, st, fr)
@@ -602,6 +613,8 @@ class StmtMixin:
     def havoc_inplace(self, v, name, st):
         if isinstance(v, Seq):
             v.arr = z3.Const(fresh_name(v.label), v.arr.sort())
+            v.len = z3.Int(fresh_name(v.label + ".len"))     # loops may append: the length is part of the havocked state
+            st.assume(v.len >= 0)
             return
         if hasattr(v, "havoc"):
             v.havoc(self, st, name)
